@@ -7,7 +7,7 @@ from pathlib import Path
 from typing import TYPE_CHECKING, Any, ClassVar, Type
 
 import libcst as cst
-from libcst._position import CodeRange
+from libcst._position import CodePosition, CodeRange
 from typing_extensions import Self
 
 from codemodder.codetf import Finding
@@ -54,16 +54,28 @@ class Result(ABCDataclass):
     finding: Finding | None = None
 
     def match_location(self, pos: CodeRange, node: cst.CSTNode) -> bool:
-        del node
+        positions = [pos]
+        lpar, rpar = getattr(node, "lpar", None), getattr(node, "rpar", None)
+        if isinstance(node, cst.BaseExpression) and lpar and rpar:
+            # libcst positions exclude the parentheses of a parenthesized
+            # expression while tools report the match including them
+            positions.append(
+                CodeRange(
+                    start=CodePosition(pos.start.line, pos.start.column - len(lpar)),
+                    end=CodePosition(pos.end.line, pos.end.column + len(rpar)),
+                )
+            )
         return any(
-            same_line(pos, location)
+            same_line(position, location)
             and (
-                pos.start.column
+                position.start.column
                 in ((start_column := location.start.column) - 1, start_column)
             )
             and (
-                pos.end.column in ((end_column := location.end.column) - 1, end_column)
+                position.end.column
+                in ((end_column := location.end.column) - 1, end_column)
             )
+            for position in positions
             for location in self.locations
         )
 
